@@ -119,6 +119,11 @@ unsafe impl Configuration for CGen {
     }
 }
 
+/// `FunctionIngredientRef::new` for harness ingredients.
+pub(crate) fn fn_ref<'a>(x: &'a dyn FunctionIngredient) -> FunctionIngredientRef<'a> {
+    FunctionIngredientRef::new(x)
+}
+
 // ---- harness state shared with the stubs ---------------------------------------------------------
 /// address of the memo currently stored for the key (0 = none)
 pub(crate) static mut CUR_MEMO: usize = 0;
@@ -188,6 +193,12 @@ pub(crate) struct World {
     pub id: Id,
     pub cur: Revision,
 }
+/// The current revision of the last `world()` (for stubs that have no access to the database).
+pub(crate) static mut WORLD_CUR: usize = 1;
+pub(crate) fn current_revision_of_world() -> Revision {
+    // SAFETY: single-threaded harness
+    Revision::from(unsafe { WORLD_CUR })
+}
 /// Bare `Zalsa` with an arbitrary monotone revision vector and one generic function ingredient.
 pub(crate) fn world() -> World {
     let mut z = crate::zalsa::verif::bare_zalsa();
@@ -197,6 +208,8 @@ pub(crate) fn world() -> World {
     let ing = IngredientImpl::<CGen>::new(IngredientIndex::new(2), crate::memo_ingredient_indices::verif::singleton(0), 0);
     // SAFETY: small index
     let id = unsafe { Id::from_index(7) };
+    // SAFETY: single-threaded harness
+    unsafe { WORLD_CUR = r0.as_usize() };
     World { db: HDb { zalsa: z, local: ZalsaLocal::new() }, ing, id, cur: r0 }
 }
 /// A final, fully tracked derived memo without edges (the dependencies are behind the stubbed `verify_memo`).
@@ -614,6 +627,93 @@ fn g_ins_1_replaced_memo_is_parked() {
         assert!(calls == 0);
     }
     vcover!(replaced && !old_has_value, "a value-less memo is replaced");
+    vcover!();
+    std::mem::forget(w);
+}
+
+// ---- `execute` (non-cycle strategy): the glue around the user function ------------------------------
+/// did `execute_query` receive an old memo header (to seed tracked-struct ids from)?
+pub(crate) static mut EXQ_OLD: usize = 0;
+pub(crate) static mut EXQ_CALLS: u32 = 0;
+/// what the user function "returns" and the stamp of what it read
+pub(crate) static mut EXQ_VALUE: u32 = 0;
+pub(crate) static mut POP_DURABILITY: u8 = 0;
+pub(crate) fn stub_execute_query<'db, C: Configuration>(
+    _db: &'db C::DbView,
+    _zalsa: &'db Zalsa,
+    active_query: crate::zalsa_local::ActiveQueryGuard<'db>,
+    opt_old_header: Option<&MemoHeader>,
+) -> (C::Output<'db>, crate::zalsa_local::ActiveQueryGuard<'db>) {
+    // SAFETY: single-threaded harness; every harness configuration has `Output = u32`
+    unsafe {
+        EXQ_CALLS += 1;
+        EXQ_OLD = match opt_old_header {
+            Some(h) => h as *const MemoHeader as usize,
+            None => 0,
+        };
+        let v: u32 = EXQ_VALUE;
+        (std::mem::transmute_copy::<u32, C::Output<'db>>(&v), active_query)
+    }
+}
+
+/// `execute_maybe_iterate` is the cycle-strategy arm of `execute`; it is not reachable for the Panic strategy
+/// but reachable for the compiler, and its thread-local pool (`FLATTEN_MAPS`) makes kani-compiler ICE.
+pub(crate) fn stub_no_iterate<'db, C: Configuration>(
+    _this: &'db IngredientImpl<C>,
+    _db: &'db C::DbView,
+    _opt_old_memo: Option<&'db Memo<C>>,
+    _claim_guard: &mut ClaimGuard<'db>,
+    _mi: MemoIngredientIndex,
+) -> (C::Output<'db>, crate::active_query::CompletedQuery) {
+    unreachable!("Panic-strategy queries never iterate")
+}
+
+//@ob id=G-EXEC-1 kind=C props=C01,C03,C06 timeout=1800 fn=IngredientImpl::execute,IngredientImpl::backdate_if_appropriate,MemoHeader::can_backdate,MemoHeader::backdate,QueryRevisions::discard_edges_if_never_change flags=stubs,noreplay
+//@ pre: a claimed key of a function without cycle handling, with or without an old memo (final, with a value, any durability, changed_at <= verified_at < current); the user function (stub of `execute_query`) returns any value; the popped frame (stub of `ActiveQueryGuard::pop`) reports any durability and changed_at = current revision, no cycle heads
+//@ post: exactly one memo is stored: the new value, verified in the current revision; its changed_at is the **old memo's** iff an old memo exists, the values are equal and the new result is not less durable (backdating, C03) and is the **current revision** otherwise (a changed value is never backdated, C01)
+//@ post: the old memo's header is handed to the user-function runner (to seed tracked-struct ids) and to diff_outputs iff there is an old memo [C06]; the claim is released exactly once; the stored memo is returned
+#[cfg(kani)]
+#[kani::proof]
+#[kani::unwind(4)]
+#[kani::stub(crate::sync::max_parallelism, crate::verif_support::one_core)]
+#[kani::stub(crate::function::sync::ClaimGuard::drop_impl, crate::function::sync::ClaimGuard::verif_release)]
+#[kani::stub(crate::function::IngredientImpl::execute_query, stub_execute_query)]
+#[kani::stub(crate::function::IngredientImpl::execute_maybe_iterate, stub_no_iterate)]
+#[kani::stub(crate::zalsa_local::ActiveQueryGuard::pop, crate::zalsa_local::ActiveQueryGuard::verif_pop)]
+#[kani::stub(crate::function::IngredientImpl::insert_memo, stub_insert_memo)]
+#[kani::stub(crate::function::memo::MemoHeader::diff_outputs, crate::function::memo::MemoHeader::verif_diff_outputs)]
+fn g_exec_1_execute_glue() {
+    let w = world();
+    let cur = w.cur;
+    let (z, l) = w.db.zalsas();
+    let has_old: bool = vk::any();
+    let (va, ca) = (vk::any_revision(), vk::any_revision());
+    vk::assume(ca <= va && va < cur);
+    let od = vk::any_durability();
+    let ov: u32 = vk::any();
+    let old = memo(Some(ov), va, od, ca);
+    let nv: u32 = vk::any();
+    let nd = vk::any_durability();
+    // SAFETY: single-threaded harness
+    unsafe {
+        EXQ_VALUE = nv;
+        POP_DURABILITY = nd.index() as u8;
+    }
+    let guard = crate::function::sync::verif::fake_guard(z, l, IngredientIndex::new(2), w.id);
+    let r = w.ing.execute(&w.db, guard, if has_old { Some(old) } else { None });
+    // SAFETY: single-threaded harness
+    let (ins, diffed, exq_old, exq_calls, releases) = unsafe { (INS, DIFFED, EXQ_OLD, EXQ_CALLS, crate::function::sync::verif::RELEASES) };
+    assert!(r.is_some());
+    assert!(exq_calls == 1 && ins.calls == 1 && releases == 1);
+    assert!(ins.value == Some(nv));
+    assert!(ins.verified_at == cur.as_usize());
+    let backdate = has_old && ov == nv && nd >= od;
+    assert!(ins.changed_at == if backdate { ca.as_usize() } else { cur.as_usize() });
+    let old_hdr = &old.header as *const MemoHeader as usize;
+    assert!(exq_old == if has_old { old_hdr } else { 0 });
+    assert!(diffed == if has_old { old_hdr } else { 0 });
+    vcover!(backdate, "backdating reachable");
+    vcover!(has_old && ov != nv, "changed value reachable");
     vcover!();
     std::mem::forget(w);
 }
